@@ -96,8 +96,9 @@ PROPS["C06"] = dict(
         "stub: std::env::var_os -> None (log! macro)",
     ],
     harnesses=[
-        lexh("sort3", "sort order and finish flags = reference (3 terminals + STOP)", 3),
-        lexh("sort4", "sort order and finish flags = reference (4 terminals + STOP)", 4, tiers=T),
+        # sort3 / sort4 (try order and finish flags against a reference) exist in sortlex.rs but are
+        # not registered: they pin the internal compiler/lexer protocol, which is more than the
+        # property states; the chain harnesses below decide the property itself.
         lexh("lr3_longest", "LR, longest match on", 3),
         lexh("lr3_first", "LR, longest match off (grammar order)", 3),
         lexh("lr4_longest", "LR, longest match on", 4, tiers=T),
